@@ -20,6 +20,7 @@ import CijModel.Ops.C11
 import CijModel.Ops.C08
 import CijModel.Ops.C09
 import CijModel.Ops.C18
+import CijModel.Ops.C14
 open Lean Cij.Wire
 
 def handlers : List Handler := [
@@ -39,7 +40,8 @@ def handlers : List Handler := [
   Cij.Ops.C11.handle,
   Cij.Ops.C08.handle,
   Cij.Ops.C09.handle,
-  Cij.Ops.C18.handle
+  Cij.Ops.C18.handle,
+  Cij.Ops.C14.handle
 ]
 
 def dispatch (line : String) : Json :=
